@@ -31,7 +31,7 @@ func init() {
 			"interleaved at lock granularity (baseline, single-preemption sweep, PCT, random); every response must be internally consistent and the recorded invoke/return history must be linearizable " +
 			"against a map model (porcupine); wait-for-ready: registrations and ready-marks separated by fake-clock advances, WaitForReady may complete only at an instant at which the model is ready, and yields ctx.Err() when cancelled first; " +
 			"non-trivial = at least one preemption and one status request overlapping another task's update (concurrent) / a not-ready phase before completion (wait); distinct = distinct (program hash, schedule hash)",
-		Quick: 40 * c18Group, Thorough: 2500 * c18Group,
+		Quick: 80 * c18Group, Thorough: 4000 * c18Group,
 		Race: true, RaceQuick: 4 * c18Group, RaceThorough: 200 * c18Group,
 	})
 }
